@@ -31,6 +31,7 @@ def fCell : Cell Float → String
   | .pl a b => s!"pl:{fF a},{fF b}"
   | .cutoff a b c => s!"cutoff:{fF a},{fF b},{fF c}"
   | .logpar a b c => s!"logpar:{fF a},{fF b},{fF c}"
+  | .func _ => "function"
   | .unityT w => s!"unityT:{fF w.tStart},{fF w.tStop}"
   | .box w => s!"box:{fF w.tStart},{fF w.tStop}"
   | .gauss g => s!"gauss:{fF g.tStart},{fF g.tStop},{fF g.sigma},{fF g.tol}"
@@ -44,6 +45,7 @@ def mkCell (kind : String) (xs : List Float) : Option (Cell Float) :=
   | "pl", [a, b] => some (.pl a b)
   | "cutoff", [a, b, c] => some (.cutoff a b c)
   | "logpar", [a, b, c] => some (.logpar a b c)
+  | "function", [g, ec] => some (.func (fun E => Float.pow E (-g) * Float.exp ((-E) / ec)))
   | "unityT", [] => some (.unityT ⟨-(1.0 / 0.0), 1.0 / 0.0⟩)
   | "box", [t0, tw] => some (.box (boxNew t0 tw))
   | "gauss", [t0, s, tol] => (gaussNewChecked t0 s tol).map .gauss
